@@ -520,3 +520,11 @@ def hist_bfs(case, ctx):
         return ops_for(size)
 
     history.bfs(ctx, _M, [init], ops, depth - 1, run_history, prefix=[first], diff_continuation=False)
+    # longer histories (4 operations; thorough 5) over a reduced operation menu, first two pools only
+    if case["pool"] in (0, 4) and first[0] in ("add", "sub", "neg"):
+        def red(init_, hist):
+            size = n0 + sum(1 for o in [first] + list(hist) if o[0] != "norm")
+            last = size - 1
+            return [["add", 0, last], ["sub", last, 1], ["neg", last], ["mul", last, -2], ["div", 0, 3], ["norm", last], ["add", last, last]]
+
+        history.bfs(ctx, _M, [init], red, (3 if ctx.tier == "quick" else 4), run_history, prefix=[first], diff_continuation=False, dedup=False)
